@@ -573,7 +573,7 @@ func runWorkerSegments(p *Prop, bin, tier string, seed uint64, dir string, k int
 		go func() { done <- cmd.Wait() }()
 		stall := p.StallSec
 		if stall == 0 {
-			stall = 240
+			stall = 600
 		}
 		if x, err := strconv.Atoi(os.Getenv("VERIF_STALL")); err == nil && x > 0 {
 			stall = x // diagnosis only
